@@ -501,7 +501,8 @@ class BP:
         self.b = build
         self.enum_as = enum_as
 
-    def py_leaf(self, fi: FieldInfo, v, route: str):
+    def py_leaf(self, fi: FieldInfo, v, route: str, contained: bool = False):
+        """contained: the value is a list element / map value (present by being there)"""
         if fi.wkt == "timestamp":
             return ts_to_dt(v[1], v[2])
         if fi.wkt == "duration":
@@ -514,6 +515,12 @@ class BP:
                 return v
             return ecls.try_value(v)
         if fi.kind == "message":
+            if not v and (contained or fi.label in ("oneof", "optional", "repeated")):
+                # an empty message in a position where ASSIGNING it already means "set" (oneof member, optional, list
+                # element, map value): alternate between a freshly constructed Sub() and a received empty one
+                self._fresh_toggle = not getattr(self, "_fresh_toggle", False)
+                if self._fresh_toggle:
+                    return self.b.bp_class(fi.type_name)()
             return self.make(self.b.msgs[fi.type_name], v, route, _nested=True)
         return self._py_scalar(fi.kind, v)
 
@@ -532,9 +539,9 @@ class BP:
                 continue
             v = tree[fi.number]
             if fi.label == "repeated":
-                pv = [self.py_leaf(fi, x, route) for x in v]
+                pv = [self.py_leaf(fi, x, route, True) for x in v]
             elif fi.label == "map":
-                pv = {self._py_scalar(fi.map_key.kind, k): self.py_leaf(fi.map_value, x, route) for k, x in v.items()}
+                pv = {self._py_scalar(fi.map_key.kind, k): self.py_leaf(fi.map_value, x, route, True) for k, x in v.items()}
             else:
                 pv = self.py_leaf(fi, v, route)
             kw[names[fi.number]] = pv
@@ -574,11 +581,11 @@ class BP:
             if fi.label == "repeated":
                 lst = getattr(m, nm)
                 for x in v:
-                    lst.append(self.py_leaf(fi, x, "inplace"))
+                    lst.append(self.py_leaf(fi, x, "inplace", True))
             elif fi.label == "map":
                 d = getattr(m, nm)
                 for k, x in v.items():
-                    d[self._py_scalar(fi.map_key.kind, k)] = self.py_leaf(fi.map_value, x, "inplace")
+                    d[self._py_scalar(fi.map_key.kind, k)] = self.py_leaf(fi.map_value, x, "inplace", True)
             elif fi.label == "singular" and fi.kind == "message" and fi.wkt is None and v:
                 self.fill_inplace(getattr(m, nm), self.b.msgs[fi.type_name], v)
             else:
